@@ -97,6 +97,39 @@ def explore(run, limit=10):
     return out
 
 
+def decide(what, message, per_occurrence=True):
+    """module-level form of ModelEval._decide, for evaluators that are not ModelEval (the kernel folds).  per_occurrence=False: one
+    answer for every occurrence of the test on the path (the same test applied to each element of a loop)"""
+    a = _ASSUME[-1] if _ASSUME else None
+    if a is None:
+        raise Unsupported(message)
+    n = a["counts"].get(what, 0) if per_occurrence else 0
+    a["counts"][what] = n + 1
+    key = "%s #%d" % (what, n) if per_occurrence else what
+    if key in a["decided"]:
+        return a["decided"][key]
+    raise NeedAssumption(key)
+
+
+class Undecided(Model):
+    """a python bool the abstraction does not know (np.isnan of a symbolic value): every branch on it is explored both ways"""
+
+    def __init__(self, what, per_occurrence=True):
+        self.what, self.per_occurrence = what, per_occurrence
+
+    def truth(self):
+        return decide("test %s" % (self.what,), "the test %s is not decided by the abstraction" % (self.what,), self.per_occurrence)
+
+    def any(self, *a, **k):
+        return self
+
+    def all(self, *a, **k):
+        return self
+
+    def __repr__(self):
+        return "Undecided(%s)" % (self.what,)
+
+
 class WeakRef(Model):
     """weakref.ref(obj): calling it gives the object (the fold keeps every object alive); copy and deepcopy treat it as ATOMIC, as the
     copy module does: a deep copy of the holder still refers to the ORIGINAL referent"""
@@ -181,7 +214,7 @@ class ModelEval(Evaluator):
             return self.hooks["builtins"][nid]
         if nid in ("True", "False", "None"):
             return {"True": True, "False": False, "None": None}[nid]
-        if nid in ("isinstance", "hasattr", "getattr", "setattr", "super", "print", "callable", "type", "NotImplemented", "eval", "__class_assigned__"):
+        if nid in ("isinstance", "hasattr", "getattr", "setattr", "super", "print", "callable", "type", "NotImplemented", "eval", "vars", "__class_assigned__"):
             return Marker("builtin", nid)
         if nid in BUILTIN_TYPES and nid in ("int", "float", "str", "bool", "dict", "list", "tuple", "set", "object", "complex"):
             return Marker("type", BUILTIN_TYPES[nid])
@@ -689,7 +722,16 @@ class ModelEval(Evaluator):
                 expr = ast.parse(args[0].strip(), mode="eval").body
             except SyntaxError as e:
                 raise Raised("SyntaxError", node, str(e))
-            return self.ev(expr)
+            try:
+                return self.ev(expr)
+            except Unsupported as e:
+                if str(e).startswith("unbound name "):
+                    raise Raised("NameError", node, "name %r is not defined" % str(e)[len("unbound name "):])      # the text comes from data: an unknown word is a NameError
+                raise
+        if name == "vars" and len(args) == 1:
+            if isinstance(args[0], PyObj):
+                return args[0]._attrs        # the instance dictionary itself (insertion-ordered by first assignment)
+            raise Unsupported("vars(%r)" % (args[0],))
         if name == "__class_assigned__":
             # a method installed by assignment in the class body (see sa/source.py): the assigned value, called with the instance first
             obj, attr = args[0], args[1]
